@@ -127,6 +127,7 @@ func Execute(t *testing.T, plan *kernel.Plan, known map[string]bool, verbose boo
 	if err != nil {
 		panic("bad events: " + err.Error())
 	}
+	logToNowhere = plan.Property == "C12"
 	r := &run{prop: plan.Property, cfg: cfg, known: known, verbose: verbose,
 		res:   &kernel.Result{Faults: map[string]int{}, Probes: map[string]int{}},
 		trace: kernel.NewHasher(), slog: kernel.NewHasher(), states: map[uint64]bool{},
